@@ -49,6 +49,7 @@ var vfItems = []vfItem{
 type vfFileSpec struct {
 	Path  string `json:"path"`  // relative, e.g. "a/b/x.go"
 	Items []int  `json:"items"` // indices into vfItems
+	Pad   int    `json:"pad,omitempty"` // size of a block comment placed between the package clause and the first item
 }
 
 type vf20Case struct {
@@ -63,6 +64,10 @@ func vfRender(fs vfFileSpec, fileNo int) string {
 	}
 	var sb strings.Builder
 	fmt.Fprintf(&sb, "// Package %s is generated.\npackage %s\n\n", pkg, pkg)
+	if fs.Pad >= 8 {
+		// "/* " + filler + " */\n\n" is exactly Pad bytes
+		sb.WriteString("/* " + strings.Repeat("p", fs.Pad-8) + " */\n\n")
+	}
 	for i, it := range fs.Items {
 		fmt.Fprintf(&sb, vfItems[it].src, fmt.Sprintf("x%d_%d", fileNo, i))
 		sb.WriteString("\n")
@@ -264,22 +269,22 @@ func TestVerifC20(t *testing.T) {
 		if !run.Mine(idx) {
 			continue
 		}
-		vfExploreTree(run, root, []vfFileSpec{{"one.go", []int{a}}}, -1, orders)
+		vfExploreTree(run, root, []vfFileSpec{{"one.go", []int{a}, 0}}, -1, orders)
 		for b := 0; b < n; b++ {
-			vfExploreTree(run, root, []vfFileSpec{{"pkg/two.go", []int{a, b}}}, -1, orders)
-			run.Sample(map[string]interface{}{"tree": vfTreeDesc([]vfFileSpec{{"pkg/two.go", []int{a, b}}})})
+			vfExploreTree(run, root, []vfFileSpec{{"pkg/two.go", []int{a, b}, 0}}, -1, orders)
+			run.Sample(map[string]interface{}{"tree": vfTreeDesc([]vfFileSpec{{"pkg/two.go", []int{a, b}, 0}})})
 			// triples: third item from the annotated kinds; iteration orders within 1 deviation (full in thorough)
 			for _, c3 := range []int{1, 3, 4, 6} {
 				bound := 1
 				if run.Thorough() {
 					bound = -1
 				}
-				vfExploreTree(run, root, []vfFileSpec{{"a/b/three.go", []int{a, b, c3}}}, bound, orders)
+				vfExploreTree(run, root, []vfFileSpec{{"a/b/three.go", []int{a, b, c3}, 0}}, bound, orders)
 			}
 		}
 		// several files, nested directories, a test file and a non-Go file that must be ignored
 		for b := 0; b < n; b++ {
-			files := []vfFileSpec{{"top.go", []int{a, 1}}, {"a/inner.go", []int{b}}, {"a/b/deep.go", []int{3, b}}, {"a/inner_test.go", []int{1, 3}}, {"a/notes.txt", []int{1}}}
+			files := []vfFileSpec{{"top.go", []int{a, 1}, 0}, {"a/inner.go", []int{b}, 0}, {"a/b/deep.go", []int{3, b}, 0}, {"a/inner_test.go", []int{1, 3}, 0}, {"a/notes.txt", []int{1}, 0}}
 			vfExploreTree(run, root, files, 2, orders)
 		}
 	}
@@ -287,15 +292,30 @@ func TestVerifC20(t *testing.T) {
 	// the destination's import path is the file's own directory, whatever was walked before it
 	if run.Mine(idx + 1) {
 		layouts := [][]vfFileSpec{
-			{{"mm/vmm/x.go", []int{1}}, {"mm/vmm.go", []int{1, 3}}, {"mm/vmm_amd64.go", []int{4}}},
-			{{"cpu/c.go", []int{3}}, {"cpu.go", []int{1}}, {"cpu_amd64.go", []int{2}}},
-			{{"a/b/c.go", []int{1}}, {"a/b.go", []int{1}}, {"a.go", []int{1}}, {"a_b/c.go", []int{3}}},
-			{{"mm/vmm/x.go", []int{0}}, {"mm/vmm.go", []int{1}}},
-			{{"k/kk/kkk/d.go", []int{1}}, {"k/kk/kkk.go", []int{4}}, {"k/kk.go", []int{2}}, {"k.go", []int{1}}, {"kz/e.go", []int{1}}},
+			{{"mm/vmm/x.go", []int{1}, 0}, {"mm/vmm.go", []int{1, 3}, 0}, {"mm/vmm_amd64.go", []int{4}, 0}},
+			{{"cpu/c.go", []int{3}, 0}, {"cpu.go", []int{1}, 0}, {"cpu_amd64.go", []int{2}, 0}},
+			{{"a/b/c.go", []int{1}, 0}, {"a/b.go", []int{1}, 0}, {"a.go", []int{1}, 0}, {"a_b/c.go", []int{3}, 0}},
+			{{"mm/vmm/x.go", []int{0}, 0}, {"mm/vmm.go", []int{1}, 0}},
+			{{"k/kk/kkk/d.go", []int{1}, 0}, {"k/kk/kkk.go", []int{4}, 0}, {"k/kk.go", []int{2}, 0}, {"k.go", []int{1}, 0}, {"kz/e.go", []int{1}, 0}},
 		}
 		for _, l := range layouts {
 			vfExploreTree(run, root, l, -1, orders)
 			run.ForceSample(map[string]interface{}{"tree": vfTreeDesc(l)})
+		}
+	}
+	// where in the file the annotation sits: its first byte at every offset from 24 bytes before to 2 bytes after each
+	// of the 4 KiB boundaries 1,2,3,4 and 16 (large source files; buffered scanning of file contents)
+	{
+		base := strings.Index(vfRender(vfFileSpec{"pkg/big.go", []int{1}, 0}, 0), "//go:redirect-from")
+		for _, k := range []int{1, 2, 3, 4, 16} {
+			idx++
+			if !run.Mine(idx) {
+				continue
+			}
+			for d := -24; d <= 2; d++ {
+				pad := k*4096 + d - base
+				vfExploreTree(run, root, []vfFileSpec{{"pkg/big.go", []int{1}, pad}, {"pkg/z.go", []int{3}, 0}}, 0, orders)
+			}
 		}
 	}
 	if run.Shard == 0 {
@@ -325,6 +345,6 @@ func TestVerifC20(t *testing.T) {
 	for o := range orders {
 		run.Distinct(o)
 	}
-	run.Finish(!run.Capped(), "source trees: every single item and ordered pair of 11 declaration kinds (annotated function, with other directives, two annotations, method, comment detached by a blank line, on a var, on a type, inside a body, trailing comment, prose mention, plain) in one file, triples with 4 annotated kinds, 5-file trees with nested directories, a _test.go file and a non-Go file; trees whose directory and file names are prefixes of one another (mm/vmm/ next to mm/vmm.go, cpu/ next to cpu.go); every iteration order of every map-typed range executed (full product for one map; <=2 non-identity orders for multi-file trees; triples <=1 in quick, full in thorough); plus the kernel tree itself",
+	run.Finish(!run.Capped(), "source trees: every single item and ordered pair of 11 declaration kinds (annotated function, with other directives, two annotations, method, comment detached by a blank line, on a var, on a type, inside a body, trailing comment, prose mention, plain) in one file, triples with 4 annotated kinds, 5-file trees with nested directories, a _test.go file and a non-Go file; trees whose directory and file names are prefixes of one another (mm/vmm/ next to mm/vmm.go, cpu/ next to cpu.go); files whose annotation starts at every offset within -24..+2 of the 4 KiB boundaries 1,2,3,4,16; every iteration order of every map-typed range executed (full product for one map; <=2 non-identity orders for multi-file trees; triples <=1 in quick, full in thorough); plus the kernel tree itself",
 		"distinct = distinct redirect tables observed; every execution compares the ordered table with an independent go/parser scanner")
 }
